@@ -1,9 +1,10 @@
 ENTRY = dict(
-    runner="C14", pkg="./cmd/c14", corr=["Corr.C14Corr"], n=dict(quick=110, thorough=2000),
-    rule="real handshakes over loopback TCP: utls clients (HelloGolang + parrots; quick: HelloGolang, Chrome_120, Firefox_120, "
-         "Chrome_112_PSK_Shuf; thorough adds 13 more parrots) against the Go server of the utls package, which presents one of 9 "
-         "generated leaves (valid for S+O+P / S only / O only / P only / wrong name / untrusted CA / expired / not yet valid / "
-         "outliving its CA) x InsecureServerNameToVerify in {'', other name, '*'} x InsecureSkipTimeVerify x InsecureSkipVerify x "
+    runner="C14", pkg="./cmd/c14", corr=["Corr.C14Corr"], n=dict(quick=90, thorough=2000),
+    rule="real handshakes over loopback TCP: the plain tls.Client entry point, UClient(HelloGolang) and parrots (quick: those two, "
+         "Chrome_120, Firefox_120, Chrome_112_PSK_Shuf; thorough adds 12 more parrots) against the Go server of the utls package, which "
+         "presents one of 13 generated chains (leaf valid for S+O+P / S only / O only / P only / wrong name / untrusted CA / expired / "
+         "not yet valid / outliving its CA; with an intermediate: trusted or untrusted root x intermediate outliving the leaf or "
+         "expiring before it) x InsecureServerNameToVerify in {'', other name, '*'} x InsecureSkipTimeVerify x InsecureSkipVerify x "
          "TLS 1.2/1.3 x {no ECH, ECH accepted, ECH rejected with retry configs}; second connections over a shared "
          "ClientSessionCache after 6 kinds of first connection x 24 second configurations (incl. client clock past the cached "
          "leaf's NotAfter). Every handshake is judged by Go's own x509 verifier called with the options the property text demands "
